@@ -227,6 +227,7 @@ type c16Ev struct {
 	kind string // "park", "idle", "wrote", "done", "cret", "dret"
 	park *c16Park
 	err  error
+	sp   bool // cret: the session-present value Connect returned
 }
 
 type c16Ctl struct {
@@ -240,6 +241,7 @@ type c16Ctl struct {
 	done    bool
 	cret    bool
 	cerr    error
+	csp     bool
 	dret    bool
 	derr    error
 	unexp   []string
@@ -285,7 +287,7 @@ func (c *c16Ctl) wait(what string, hold []string, cond func() bool) bool {
 			case "done":
 				c.done = true
 			case "cret":
-				c.cret, c.cerr = true, ev.err
+				c.cret, c.cerr, c.csp = true, ev.err, ev.sp
 			case "dret":
 				c.dret, c.derr = true, ev.err
 			}
@@ -415,7 +417,7 @@ func (c *c16Conn) finish() {
 // ---------------------------------------------------------------- family bc: scenarios
 
 // macro steps
-const c16EndKinds = 8 // ways PeerEnd makes serve() return
+const c16EndKinds = 10 // ways PeerEnd makes serve() return
 
 const (
 	mStartConnect = iota
@@ -456,13 +458,14 @@ type c16Scn struct {
 	ctx           context.Context
 	endKind       int  // which malformed/closing/ack-write-failure behaviour PeerEnd uses
 	blocked       bool // a guarded call into the library did not return
+	ackFlags      int  // acknowledge-flags byte of the CONNACKs the peer sends (bit 0 = session present)
 	hmode         int  // 1: the handler also calls Handle(nil) on Closed/Disconnected
 	refuseCode    int
 	macros        []string
 }
 
-func newC16Scn(endKind, refuseCode, hmode int) *c16Scn {
-	s := &c16Scn{tl: &c16Timeline{}, endKind: endKind, refuseCode: refuseCode, hmode: hmode}
+func newC16Scn(endKind, refuseCode, hmode, ackFlags int) *c16Scn {
+	s := &c16Scn{tl: &c16Timeline{}, endKind: endKind, refuseCode: refuseCode, hmode: hmode, ackFlags: ackFlags}
 	s.ctl = &c16Ctl{events: make(chan c16Ev, 4096), gidMain: c16gid(), held: map[string]*c16Park{}}
 	s.conn = newC16Conn(s.ctl)
 	s.cli = &mqtt.BaseClient{Transport: s.conn}
@@ -525,11 +528,15 @@ func (s *c16Scn) valid(m int) bool {
 
 // the reader has seen the end of the stream / a failed read: it must arrive at its Close
 func (s *c16Scn) serveFails(errc string) bool {
+	return s.serveFailsL(errc, "(LServeFail "+errc+")")
+}
+
+func (s *c16Scn) serveFailsL(errc, label string) bool {
 	if !s.ctl.wait("reader reaches Transport.Close after "+errc, []string{"SC"}, func() bool { return s.ctl.held["SC"] != nil }) {
 		return false
 	}
 	s.sSt = "SC"
-	s.tl.step(0, "(LServeFail "+errc+")")
+	s.tl.step(0, label)
 	return true
 }
 
@@ -563,8 +570,17 @@ func (s *c16Scn) settleC() bool {
 	case res == "RCtx":
 		s.tl.step(0, "LConnSeeCtx")
 	}
-	s.tl.tev(0, "(TConnRet "+res+")")
+	s.connRet()
 	return true
+}
+
+// connRet records what Connect returned (and, on success, the session-present value).
+func (s *c16Scn) connRet() {
+	res := c16ConnRes(s.ctl.cerr)
+	s.tl.tev(0, "(TConnRet "+res+")")
+	if res == "ROk" {
+		s.tl.tev(0, "(TConnSP "+cBool(s.ctl.csp)+")")
+	}
 }
 
 func (s *c16Scn) do(m int) bool {
@@ -575,8 +591,8 @@ func (s *c16Scn) do(m int) bool {
 		s.tl.tev(0, "TCallConnect")
 		n := c.idle
 		go func() {
-			_, err := s.cli.Connect(s.ctx, "cid")
-			c.events <- c16Ev{kind: "cret", err: err}
+			sp, err := s.cli.Connect(s.ctx, "cid")
+			c.events <- c16Ev{kind: "cret", err: err, sp: sp}
 		}()
 		if !c.wait("Connect reaches the CONNECT write", []string{"CW", "SC"}, func() bool { return c.held["CW"] != nil }) {
 			return false
@@ -621,19 +637,20 @@ func (s *c16Scn) do(m int) bool {
 			return false
 		}
 		s.cSt = "ret"
-		s.tl.tev(0, "(TConnRet "+c16ConnRes(c.cerr)+")")
+		s.connRet()
 	case mPeerAccept, mPeerRefuse:
 		code := 0
 		if m == mPeerRefuse {
 			code = s.refuseCode
 		}
-		s.tl.tev(0, fmt.Sprintf("(TPeerAck %d)", code))
+		s.tl.tev(0, fmt.Sprintf("(TPeerAck %d %d)", s.ackFlags, code))
 		n := c.idle
-		s.conn.send([]byte{0x20, 2, 0, byte(code)})
+		s.conn.send([]byte{0x20, 2, byte(s.ackFlags), byte(code)})
 		if !c.wait("reader consumes CONNACK", nil, func() bool { return c.idle > n }) {
 			return false
 		}
-		s.tl.step(0, fmt.Sprintf("(LPeerConnAck %d)", code))
+		// the label is computed inside Coq from the bytes sent (connack_parse: connack.go Parse)
+		s.tl.step(0, fmt.Sprintf("(connack_label 0 [%d; %d])", s.ackFlags, code))
 		if !s.ack {
 			s.ack, s.ackCode = true, code
 		}
@@ -641,7 +658,7 @@ func (s *c16Scn) do(m int) bool {
 	case mPeerEnd:
 		var errc string
 		kind := s.endKind % c16EndKinds
-		if kind >= 5 && (s.cSt == "CW" || s.dSt == "DW") {
+		if kind >= 5 && kind <= 7 && (s.cSt == "CW" || s.dSt == "DW") {
 			// a goroutine parked inside Transport.Write holds muWrite: the reader's acknowledgement
 			// write would wait for the harness itself. Use a read-side ending here.
 			kind = 0
@@ -656,9 +673,10 @@ func (s *c16Scn) do(m int) bool {
 			s.tl.tev(0, "(TPeerEnd EInvalidPacket)")
 			s.conn.send([]byte{0xF0, 0})
 		case 2:
-			errc = "EInvalidPacket" // CONNACK with non-zero flags
+			// CONNACK with non-zero header flags
 			s.tl.tev(0, "(TPeerEnd EInvalidPacket)")
 			s.conn.send([]byte{0x21, 2, 0, 0})
+			return s.serveFailsL("EInvalidPacket", "(connack_label 1 [0; 0])")
 		case 3:
 			errc = "EUnexpectedEOF" // truncated packet, then the peer closes
 			s.tl.tev(0, "(TPeerEnd EUnexpectedEOF)")
@@ -691,6 +709,16 @@ func (s *c16Scn) do(m int) bool {
 			s.tl.tev(0, "(TPeerEnd EWriteFail)")
 			atomic.StoreInt32(&s.conn.failAcks, 1)
 			s.conn.send(encID(0x62, 7))
+		case 8:
+			// CONNACK with a three-byte variable header
+			s.tl.tev(0, "(TPeerEnd EInvalidLength)")
+			s.conn.send([]byte{0x20, 3, 0, 0, 0})
+			return s.serveFailsL("EInvalidLength", "(connack_label 0 [0; 0; 0])")
+		case 9:
+			// CONNACK with a one-byte variable header
+			s.tl.tev(0, "(TPeerEnd EInvalidLength)")
+			s.conn.send([]byte{0x20, 1, 1})
+			return s.serveFailsL("EInvalidLength", "(connack_label 0 [1])")
 		}
 		return s.serveFails(errc)
 	case mLocalClose:
@@ -736,7 +764,7 @@ func (s *c16Scn) do(m int) bool {
 			return false
 		}
 		s.cSt = "ret"
-		s.tl.tev(0, "(TConnRet "+c16ConnRes(c.cerr)+")")
+		s.connRet()
 	case mStartDisconnect:
 		s.tl.tev(0, "TCallDisconnect")
 		started := make(chan struct{})
@@ -857,6 +885,11 @@ func (s *c16Scn) drain(order []int) bool {
 	return true
 }
 
+// return codes and acknowledge-flags bytes used by the enumerated scenarios (the sweep family
+// covers all 256 values of each)
+var c16Codes = []int{5, 1, 2, 3, 4, 6, 0x10, 0x80, 0x84, 0xFF}
+var c16Flags = []int{0, 1, 2, 3, 0x80, 0xFE, 0xFF}
+
 var c16DrainOrders = [][]int{
 	{mRelCWok, mRelCA, mRelSC, mRelSU, mRelDU, mRelDWok, mRelDC},
 	{mRelDU, mRelDWok, mRelDC, mRelSC, mRelSU, mRelCWok, mRelCA},
@@ -899,8 +932,8 @@ type c16Result struct {
 
 // c16RunBC executes the steps of prefix that are valid when their turn comes (the others are
 // skipped), then up to extra further steps chosen by choose among the valid ones, then drains.
-func c16RunBC(prefix []int, endKind, refuseCode, drainOrder int, hmode int, extra int, choose func(valid []int) int) (res c16Result) {
-	s := newC16Scn(endKind, refuseCode, hmode)
+func c16RunBC(prefix []int, endKind, refuseCode, drainOrder int, hmode int, ackFlags int, extra int, choose func(valid []int) int) (res c16Result) {
+	s := newC16Scn(endKind, refuseCode, hmode, ackFlags)
 	defer s.cleanup()
 	ok := s.sample()
 	for _, m := range prefix {
@@ -991,7 +1024,7 @@ func (r *c16RC) dial(ctx context.Context) (*mqtt.BaseClient, error) {
 		switch typ {
 		case 0x10:
 			wroteOnce.Do(func() { close(ep.wrote) })
-			r.tl.tev(k, fmt.Sprintf("(TPeerAck %d)", refuse))
+			r.tl.tev(k, fmt.Sprintf("(TPeerAck 0 %d)", refuse))
 			if refuse != 0 {
 				// the caller of a refused Connect closes the transport (reconnclient.go:156)
 				r.tl.tev(k, "TCallClose")
@@ -1075,7 +1108,7 @@ func (r *c16RC) nextEpoch(what string) (*c16Epoch, error) {
 func c16ConnectLabels(t *c16Timeline, k int, code int) {
 	t.step(k, "LConnStart")
 	t.step(k, "(LConnWrite true)")
-	t.step(k, fmt.Sprintf("(LPeerConnAck %d)", code))
+	t.step(k, fmt.Sprintf("(connack_label 0 [0; %d])", code))
 	t.step(k, "LConnSeeAck")
 	if code == 0 {
 		t.step(k, "LConnActive")
@@ -1399,11 +1432,48 @@ func runC16(cfg *runCfg) error {
 				skipped++
 				continue
 			}
-			res := c16RunBC(p, ek, 1+(i+ek)%5, i, (i+ek)%2, 0, nil)
+			res := c16RunBC(p, ek, c16Codes[(i+ek)%len(c16Codes)], i, (i+ek)%2, c16Flags[(i+2*ek)%len(c16Flags)], 0, nil)
 			addBC(res, "bc", false)
 		}
 	}
 	nCorpus := len(bc)
+	// sweep: every CONNACK return code byte and every acknowledge-flags byte, one small scenario each:
+	// Connect must succeed iff the code is 0 (then return session present = bit 0 of the flags byte),
+	// otherwise fail with a ConnectionError carrying the code and report no Active; then the peer
+	// closes / the client closes and Closed is reported exactly once
+	nSweep := 0
+	sweep := func(code, flags, variant int) {
+		if c16GiveUp() {
+			skipped++
+			return
+		}
+		ack := mPeerRefuse
+		if code == 0 {
+			ack = mPeerAccept
+		}
+		var p []int
+		switch variant % 3 {
+		case 0:
+			p = []int{mStartConnect, mRelCWok, ack, mRelCA, mPeerEnd, mRelSC, mRelSU}
+		case 1:
+			p = []int{mStartConnect, mRelCWok, ack, mRelCA, mLocalClose, mRelSC, mRelSU}
+		default: // CONNACK arrives while Connect is still writing
+			p = []int{mStartConnect, ack, mRelCWok, mRelCA, mPeerEnd, mRelSC, mRelSU}
+		}
+		res := c16RunBC(p, 0, code, 0, variant%2, flags, 0, nil)
+		addBC(res, "bc", false)
+		nSweep++
+	}
+	for code := 0; code < 256; code++ {
+		sweep(code, (code*7+1)%256, code)
+	}
+	for flags := 0; flags < 256; flags++ {
+		code := 0
+		if flags%4 == 3 {
+			code = 0x84
+		}
+		sweep(code, flags, flags+1)
+	}
 	// exhaustive: every valid scenario up to depth D (the kind of PeerEnd, the refusal code and the
 	// handler mode are functions of the scenario, so that all of them occur)
 	depth, nRand, rcReps := 5, 600, 2
@@ -1430,7 +1500,7 @@ func runC16(cfg *runCfg) error {
 		if sum%4 == 1 {
 			hm = 1
 		}
-		res := c16RunBC(prefix, sum%c16EndKinds, 1+sum%5, len(prefix), hm, 0, nil)
+		res := c16RunBC(prefix, sum%c16EndKinds, c16Codes[sum%len(c16Codes)], len(prefix), hm, c16Flags[(sum/3)%len(c16Flags)], 0, nil)
 		if len(prefix) > 0 {
 			addBC(res, "bc", false)
 		}
@@ -1454,7 +1524,7 @@ func runC16(cfg *runCfg) error {
 		if rnd.Intn(4) == 0 {
 			hm = 1
 		}
-		res := c16RunBC(nil, rnd.Intn(c16EndKinds), 1+rnd.Intn(5), rnd.Intn(3), hm, 6+rnd.Intn(10), func(v []int) int { return v[rnd.Intn(len(v))] })
+		res := c16RunBC(nil, rnd.Intn(c16EndKinds), 1+rnd.Intn(255), rnd.Intn(3), hm, rnd.Intn(256), 6+rnd.Intn(10), func(v []int) int { return v[rnd.Intn(len(v))] })
 		addBC(res, "bc", false)
 	}
 	// family rc
@@ -1529,7 +1599,8 @@ func runC16(cfg *runCfg) error {
 	m.DistinctNontrivial = nontrivial
 	m.Rule = fmt.Sprintf("family bc: a real BaseClient over a gated in-memory transport; every valid scenario of up to %d macro steps over {start Connect, let the CONNECT write succeed/fail, peer sends accepting/refusing CONNACK, peer closes, Close(), release the reader's Transport.Close / the Closed, Active, Disconnected callbacks, start Disconnect, let the DISCONNECT write succeed/fail, let Disconnect close, cancel Connect's context}, each completed by releasing everything; plus %d random scenarios of 5-14 steps with all malformed-packet kinds and refusal codes 1-5 and three completion orders; Err() and Done() polled after every step (also inside callbacks). family rc: the real ReconnectClient with an in-memory dialer (ping 5 ms): keep-alive timeout, idle cut then healthy connection sampled >= 60 ms later, refused CONNACK codes 1-5, graceful Disconnect sampled >= 60 ms later, Disconnect with a PINGREQ in flight (GOMAXPROCS 1 and default). non-trivial = distinct bc timeline with >= 4 macro steps, or any rc scenario", depth, nRand)
 	m.Distribution["bc_corpus"] = nCorpus
-	m.Distribution["bc_enumerated"] = nEnum - nCorpus
+	m.Distribution["bc_connack_sweep"] = nSweep
+	m.Distribution["bc_enumerated"] = nEnum - nCorpus - nSweep
 	m.Distribution["bc_random"] = len(bc) - nEnum
 	m.Distribution["rc"] = len(rcCases)
 	m.Distribution["distinct_bc_timelines"] = len(distinct)
